@@ -561,6 +561,10 @@ func (o *opCtx) exec(kind, k int) string {
 		b := ch.Bytes()
 		d.add(b[:])
 	case opFrPool:
+		// calls with arguments nothing is promised for (negative exponents, division by zero, ...): results unjudged, but
+		// the field constants and everything computed afterwards must be what they always are
+		fieldEdgeCalls(nil, rng)
+		d.addf("%s", fr.Modulus().Text(16))
 		for i := 0; i < 40; i++ {
 			buf := make([]byte, rng.Intn(65))
 			rng.Read(buf)
